@@ -534,6 +534,8 @@ $SUB32    //@ at start
     //@+     assert forall|p: u8| (#[trigger] (p >> 2u8)) == p / 4 by { assert((p >> 2u8) == p / 4) by (bit_vector); }
     //@+     assert forall|v: u16| (#[trigger] (v >> 2u16)) == v / 4 by { assert((v >> 2u16) == v / 4) by (bit_vector); }
     //@+     assert forall|v: u32| (#[trigger] (v >> 2u32)) == v / 4 by { assert((v >> 2u32) == v / 4) by (bit_vector); }
+    //@+     assert forall|v: u64| (#[trigger] (v >> 2u64)) == v / 4 by { assert((v >> 2u64) == v / 4) by (bit_vector); }
+    //@+     assert forall|v: u128| (#[trigger] (v >> 2u128)) == v / 4 by { assert((v >> 2u128) == v / 4) by (bit_vector); }
     //@+ }
 '''
 
@@ -551,12 +553,140 @@ $START}
 } // mod compact_dec_$T
 """
 
+DEC_BIG_LEMMAS = r"""
+pub mod compact_dec_big_lemmas {
+use vstd::prelude::*;
+use super::spec::*;
+use super::le_lemmas::*;
+use super::compact_lemmas::*;
+
+pub proof fn pow256_table()
+    ensures pow256(0) == 1, pow256(1) == 0x100, pow256(2) == 0x10000, pow256(3) == 0x1000000, pow256(4) == 0x100000000,
+        pow256(5) == 0x10000000000, pow256(6) == 0x1000000000000, pow256(7) == 0x100000000000000, pow256(8) == 0x10000000000000000,
+        pow256(9) == 0x1000000000000000000, pow256(10) == 0x100000000000000000000, pow256(11) == 0x10000000000000000000000,
+        pow256(12) == 0x1000000000000000000000000, pow256(13) == 0x100000000000000000000000000,
+        pow256(14) == 0x10000000000000000000000000000, pow256(15) == 0x1000000000000000000000000000000,
+        pow256(16) == 0x100000000000000000000000000000000,
+{
+    reveal_with_fuel(pow256, 17);
+}
+
+/// value of a byte string extended by one more significant byte
+pub proof fn from_le_snoc(s: Seq<u8>, b: u8)
+    ensures from_le(s.push(b)) == from_le(s) + (b as nat) * pow256(s.len())
+    decreases s.len()
+{
+    let t = s.push(b);
+    assert(t.len() == s.len() + 1);
+    assert(from_le(t) == (t[0] as nat) + 256 * from_le(t.skip(1)));
+    if s.len() == 0 {
+        assert(t.skip(1) =~= s);
+        assert(pow256(0) == 1);
+        assert(from_le(s) == 0);
+        assert((b as nat) * pow256(0) == b as nat) by (nonlinear_arith) requires pow256(0) == 1;
+    } else {
+        assert(t.skip(1) =~= s.skip(1).push(b));
+        from_le_snoc(s.skip(1), b);
+        let p = pow256((s.len() - 1) as nat);
+        assert(pow256(s.len()) == 256 * p);
+        assert(from_le(s) == (s[0] as nat) + 256 * from_le(s.skip(1)));
+        assert(256 * (from_le(s.skip(1)) + (b as nat) * p) == 256 * from_le(s.skip(1)) + (b as nat) * (256 * p)) by (nonlinear_arith);
+    }
+}
+
+pub proof fn from_le_bound(s: Seq<u8>)
+    ensures from_le(s) < pow256(s.len())
+{ le_from_le(s); }
+
+} // mod compact_dec_big_lemmas
+"""
+
+DEC_BIG = r"""
+pub mod compact_dec_$T {
+use super::*;
+broadcast use auto::psc_auto;
+//@module compact_dec_$T props=C02,C03,C04,C08,C14
+pub proof fn or_shift_$T(res: $T, b: u8, i: u8)
+    requires i < $N, (res as nat) < pow256(i as nat)
+    ensures (res | (((b as $T)) << ((i * 8) as $T))) as nat == res as nat + (b as nat) * pow256(i as nat)
+{
+    compact_dec_big_lemmas::pow256_table();
+$ORCASES
+}
+pub proof fn max_shift_$T(k: u8)
+    requires 5 <= k < $N
+    ensures (($T::MAX >> ((($N - k + 1) * 8) as $T)) as nat) + 1 == pow256((k - 1) as nat)
+{
+    compact_dec_big_lemmas::pow256_table();
+$MAXCASES
+}
+impl Decode for Compact<$T> {
+    open spec fn accepts(b: Seq<u8>) -> Option<nat> { compact_accepts(b, $N) }
+    open spec fn dec_bytes(v: &Self) -> Seq<u8> { compact(v.0 as nat) }
+    open spec fn need_depth(b: Seq<u8>) -> nat { 0 }
+    //@fn compact.$T.decode :: compact | impl Decode for Compact<$T> | decode
+$START    //@ at before `let prefix = input.read_byte()?;`
+    //@+ proof {
+    //@+     compact_dec_big_lemmas::pow256_table();
+    //@+     assert((u64::MAX >> 8u64) == 0xffffffffffffffu64) by (bit_vector);
+    //@+     assert((u128::MAX >> 8u128) == 0xffffffffffffffffffffffffffffffu128) by (bit_vector);
+    //@+ }
+$ARMS    //@ at before `let mut res = 0;`
+    //@+ proof {
+    //@+     compact_dec_big_lemmas::pow256_table();
+    //@+     max_shift_$T(bytes_needed);
+    //@+     assert(b0.subrange(1, 1) =~= Seq::<u8>::empty());
+    //@+ }
+    //@ at after `for i in 0..bytes_needed`
+    //@+ invariant
+    //@+     5 <= bytes_needed < $N,
+    //@+     bytes_needed as nat == (b0[0] / 4) as nat + 4,
+    //@+     b0.len() >= 1 + i,
+    //@+     input.bytes() == b0.skip(1 + i as int),
+    //@+     res as nat == from_le(b0.subrange(1, 1 + i as int)),
+    //@+     input.depth_st() == old(input).depth_st(),
+    //@+     input.mem_room() == old(input).mem_room(),
+    //@+     b0 == old(input).bytes(),
+    //@+     b0.len() >= 1 && b0[0] % 4 == 3,
+    //@ at before `res |= $T::from(input.read_byte()?) << (i * 8);`
+    //@+ proof {
+    //@+     compact_dec_big_lemmas::from_le_bound(b0.subrange(1, 1 + i as int));
+    //@+     assert forall|b: u8| (res | #[trigger] ((b as $T) << ((i * 8) as $T))) as nat == res as nat + (b as nat) * pow256(i as nat) by { or_shift_$T(res, b, i); }
+    //@+     if b0.len() >= 2 + i {
+    //@+         compact_dec_big_lemmas::from_le_snoc(b0.subrange(1, 1 + i as int), b0[1 + i as int]);
+    //@+         assert(b0.subrange(1, 1 + i as int).push(b0[1 + i as int]) =~= b0.subrange(1, 2 + i as int));
+    //@+     }
+    //@+ }
+}
+} // mod compact_dec_$T
+"""
+
+
+def big_cases(t, n):
+    orc = []
+    for i in range(n):
+        orc.append('    if i == %d { assert((res as %s) < (1%s << %d%s) ==> (res | ((b as %s) << %d%s)) == res + (b as %s) * (1%s << %d%s)) by (bit_vector); assert((1%s << %d%s) == 0x1%s) by (bit_vector); }' % (
+            i, t, t, 8 * i, t, t, 8 * i, t, t, t, 8 * i, t, t, 8 * i, t, '00' * i))
+    mx = []
+    for k in range(5, n):
+        sh = (n - k + 1) * 8
+        mx.append('    if k == %d { assert((%s::MAX >> %d%s) == 0x%s) by (bit_vector); }' % (k, t, sh, t, 'ff' * (k - 1)))
+    return '\n'.join(orc), '\n'.join(mx)
+
+
 def dec_template():
     out = [DEC_HEAD]
     for t, n in (('u8', 1), ('u16', 2), ('u32', 4)):
         sub32 = '' if t == 'u8' else '    //@ sub `u32::decode(&mut PrefixInput {` `u32_decode_prefix(&mut PrefixInput {` R5\n'
         st = DEC_COMMON_START.replace('$SUB32', sub32).replace('$N', str(n))
         out.append(DEC_SMALL.replace('$START', st).replace('$N', str(n)).replace('$T', t))
+    out.append(DEC_BIG_LEMMAS)
+    for t, n in (('u64', 8), ('u128', 16)):
+        sub32 = '    //@ sub `u32::decode(&mut PrefixInput {` `u32_decode_prefix(&mut PrefixInput {` R5\n'
+        st = DEC_COMMON_START.replace('$SUB32', sub32).replace('$N', str(n))
+        orc, mx = big_cases(t, n)
+        arms = ''.join('    //@ at after `%d => {`\n    //@+ proof { assert((b0[0] / 4) as nat + 4 == %d); }\n' % (k, k) for k in (4, 8, 16) if k <= n)
+        out.append(DEC_BIG.replace('$ARMS', arms).replace('$START', st).replace('$ORCASES', orc).replace('$MAXCASES', mx).replace('$N', str(n)).replace('$T', t))
     return '\n'.join(out)
 
 
